@@ -51,6 +51,9 @@ CLAIMED.update({
  "C06": dict(
    text="Proof: over the executable model of NewSigner/Sign (Sign.v, byte-exact against the library on every run): on any handle satisfying the image invariant, signing a whole group and then requesting that group yields NewVerifier's task and Verify = nil with every attached signature (earlier acceptable ones included) reporting exactly the group's objects, and signing only adds one ungrouped signature object linked to the group, every other descriptor staying in place; the appended signature is accepted for every request it covers (whole set, or any object subset under OptVerifyObject); the whole-group signer covers exactly the group in table order; adding any object outside the group afterwards keeps members, relative IDs, minimum ID, protected header fields, every live object's bytes and hence the verdict on every existing signature; the verdict is a function of the protected view only. Hypotheses (explicit, no axioms): the metadata survives JSON, the sealed envelope opens under the supplied keys to the sealed payload, a recorded fingerprint is well formed. The clause 'after further parties co-sign' is refuted for two different object-subset signatures on one group (known finding F13)." + CORR_I + " Cases: generated images (1-4 groups, 1-6 objects each, all types, empty objects, deletions before signing), PGP and DSSE (RSA/ECDSA/Ed25519, 1-3 signers), default/group/object selections, deterministic/explicit/default time; same-handle and reloaded verification, co-signing, later adds/deletes in other groups, relocated data, shifted IDs, renamed group, changed unprotected fields; refused signing requests; the signed bytes are compared with the model's.",
    note=NOTE_I + " Reload-independence is C08's theorem (handle = reload in every reachable state); images with shifted IDs/renamed groups are covered by the view-only theorem plus the correspondence cases, not by a dedicated theorem.", ref="5 (C06)"),
+ "C09": dict(
+   text="Proof: an operation is the list of storage calls it issues; a crash leaves the file after any prefix of them, the last write cut at any byte (POSIX file semantics). For every state satisfying the image invariant and every add / delete (all options) / set-primary / set-metadata / set-OCI-digest, accepted or rejected, every crash image still loads, has the same number of slots, and every object the operation was not aimed at keeps its descriptor in its slot and its bytes - by a general preservation principle (a byte range survives every crash point if each overlapping write re-writes what is there and each truncation stays beyond it) applied to the header fields LoadContainer depends on, each bystander's table slot and each bystander's data, with the calls of every operation characterised as data calls beyond / disjoint from those ranges followed by the table and header writes. The call lists of the model are compared call by call with the calls the library issues (recording ReadWriter) on (pre-state, operation) pairs from random histories; crash images at every call boundary and torn prefixes at sector granularity (every byte for table/header writes in thorough) are reconstructed from the recorded calls and loaded with the real LoadContainer; every call is also failed once (full failure and short write) and the error must reach the caller. Partial: 'an object being added is absent or completely present at call boundaries' and error propagation are checked on the implementation by the crash family, not stated as theorems; signing is covered as the AddObject it performs.",
+   note="Trusted: Coq kernel+VM, correspondence harness (recording/fault-injecting ReadWriter, POSIX replay of recorded calls) and Exec.v; the crash model is the POSIX-file model of Store.v validated against os.File (C14). Torn writes are modelled as byte prefixes of a write call; reordering of calls by the OS cache is not modelled.", ref="5 (C09)"),
  "C07": dict(
    text="Proof: a nil Verify examined every signature attached to every requested task (none skipped), each of a recognised format and of a scheme for which key material was supplied, each opened by the opener under the supplied keys; the keys/entity reported for a result are exactly what the opener returned, DSSE identities come only from the DSSE opener and PGP identities only from the clear-sign opener, and a PGP signature's descriptor names that same entity." + CORR_I + " Cases: (signing set, trusted set) pairs over 7 DSSE keys (RSA/ECDSA/Ed25519) and 3 PGP entities incl. disjoint/overlapping/superset/empty/nil, every kind of fingerprint value in the descriptor, both schemes on one group with key material for one, foreign payload types made by the trusted key, unrecognised formats; reported signers are compared with an independent re-opening of each signature with every key the harness has.",
    note=NOTE_I + " What 'valid under a key' means is go-crypto's and sigstore's answer (oracle tables), not modelled.", ref="5 (C07)"),
